@@ -158,7 +158,7 @@ Proof.
     pose proof (h_rcpt_certs _ _ _ _ _ Eh) as Hn. destruct h'; inversion H; subst; exact Hn.
   - destruct (h_data f o s) as [[e h'] s'] eqn:Eh.
     pose proof (h_data_nocert _ _ _ _ _ Eh) as Hn. destruct h'; inversion H; subst; apply nocert_ok; exact Hn.
-  - inversion H; subst. apply nocert_ok; reflexivity.
+  - destruct (negb (esmtp s)); inversion H; subst; apply nocert_ok; reflexivity.
   - destruct (Session.authed s || negb (o_authperm o)); [inversion H; subst; apply nocert_ok; reflexivity|].
     destruct (o_auth o (skipn 5 l)); inversion H; subst; apply nocert_ok; reflexivity.
   - inversion H; subst. apply nocert_ok; reflexivity.
